@@ -9,6 +9,10 @@ Theorem C15_code_leaves_the_loop_when_the_cache_is_gone :
   loop_exits_with_cache hot_reloading_thread = true /\ drains_before_events hot_reloading_thread = true.
 Proof. exact (conj reloader_loop_exits_with_its_cache cache_messages_first). Qed.
 
+(* ... and when its source let go of the event sender (a disconnected channel is permanently ready) *)
+Theorem C15_code_leaves_the_loop_when_events_are_over : events_branch_wf hot_reloading_thread = true.
+Proof. exact reloader_leaves_when_events_are_over. Qed.
+
 (* idle: both inboxes empty and connected => the thread blocks and consumes nothing *)
 Theorem C15_idle_blocks : forall x p s,
   st s <> Exited -> qlen (cmq s) = 0 -> connected (cmq s) = true ->
